@@ -2,6 +2,7 @@ import Driver.Nat
 import StrandModel.Model.Shuffle
 import StrandModel.Model.Generators
 import StrandModel.Model.Rng
+import StrandModel.Model.GenShuffle
 /- Dispatcher, part 2: shuffle, generators, vector codecs. -/
 namespace Strand.Driver
 open Strand Strand.Proto
@@ -36,6 +37,11 @@ def runNatShuffle (P : Params) (fl : Flavour) (op : String) (args : List Val) : 
     | some perm, some cts, some tape =>
       resOut (applyPermutation o pk perm cts tape) fun ((outs, rs), _) => .list [vCts outs, vNats rs]
     | _, _, _ => .badOp op
+  | "gen_shuffle", [.nat pk, cts, .bytes rng, tape] => match gCts cts, gNats tape with
+    | some cts, some tape =>
+      resOut (genShuffle o pk cts rng tape) fun ((outs, rs, perm), rng', _) =>
+        .list [vCts outs, vNats rs, vNats perm, .nat (rng.length - rng'.length)]
+    | _, _ => .badOp op
   | "gen_commitments", [gens, perm, tape] => match gNats gens, gNats perm, gNats tape with
     | some gens, some perm, some tape =>
       resOut (genCommitments o gens perm tape) fun ((cs, rs), _) => .list [vNats cs, vNats rs]
